@@ -300,6 +300,7 @@ def run_schedules(ctx, lay, scheds, label, thread=False, per_daemon=25):
     logs = []
     clean = True
     b = 0
+    nfail = 0
     while b < len(scheds):
         batch = scheds[b:b + per_daemon]
         ses = proxy.Session(lay, thread=thread, buffers=1, maxclients=20)
@@ -345,6 +346,10 @@ def run_schedules(ctx, lay, scheds, label, thread=False, per_daemon=25):
             ctx.violate("crash", "died:%s" % rp["name"].split("#")[0], "daemon process ended during schedule %s\n%s" % (rp["name"], ses.d.stderr[-1500:]), rp)
             clean = False
         b += ndone          # after a failure the rest of the batch runs in a new process
+        if failed:
+            nfail += 1
+            if nfail >= 4:
+                break
     ok = validate(ctx, logs, label)
     if ok and clean:
         ctx.validated(len(scheds))
@@ -557,6 +562,9 @@ def label_stream(ses, c, lay, stream):
             c.hdr_at = 0
 
 
+_deaths = {}
+
+
 def fault_pass(ctx, lay, cases, label, thread=False, per_daemon=150):
     """witnesses W1 (TTX via raw socket) and W2 (WSS via raw socket) stay connected; after every fault: tick, both
     witnesses must have received exactly that frame with the payload of the synthetic device; liveness probe."""
@@ -639,8 +647,12 @@ def fault_pass(ctx, lay, cases, label, thread=False, per_daemon=150):
         if failed and failed[0]:
             k = batch.index(failed[0])
             rest = cases[b + k + 1: b + per_daemon]
-            if rest:
+            nfail = _deaths.get(id(ctx), 0) + 1
+            _deaths[id(ctx)] = nfail
+            if rest and nfail < 4:          # (a daemon that dies on every fault: three examples are enough)
                 clean = fault_pass(ctx, lay, rest, label + "+", thread, per_daemon) and clean
+            if nfail >= 4:
+                break
     ok = validate(ctx, logs, label)
     if ok and clean:
         ctx.validated(n_ok)
@@ -711,7 +723,7 @@ def run(ctx):
         if st:
             scheds.append(("cex-" + cfg[14:], st))
     seen = set()
-    for cfg, n in (("Gen_ProxyConn", 12 if quick else 300), ("Gen_ProxyConn_tok", 18 if quick else 500)):
+    for cfg, n in (("Gen_ProxyConn", 12 if quick else 200), ("Gen_ProxyConn_tok", 18 if quick else 300)):
         g = tlc.run("Gen_ProxyConn", cfg, timeout=900, workers=4, simulate=n, depth=44, seed=ctx.seed, collect_tr=True, heap="2g",
                     max_tr=4 * n)
         ctx.add_mc(g, "GEN " + cfg)
